@@ -8,11 +8,17 @@
      conventions of reflect.StructTag are trusted)           and strconv.Unquote are not modelled)
    sortFieldDescFromTag: loop                              tag_loop (fuel = number of pairs):
        options, ok := remaining.Lookup("gsort")              lookup = first pair with key gsort;
-       ... strings.Replace(remaining,                        remove_first_text = remove the first
-             `gsort:"`+options+`"`, "", 1)                   pair whose text `key:"value"` ends
-                                                             with `gsort:"<options>"` (a textual
-                                                             replace also matches inside a longer
-                                                             key such as xgsort)
+       ... strings.Replace(remaining,                        remove_first_text = the first pair
+             `gsort:"`+options+`"`, "", 1)                   whose text `key:"value"` ends with
+                                                             `gsort:"<options>"` is hit: removed
+                                                             when its key is gsort; a longer key
+                                                             (xgsort) keeps its head `x`, a
+                                                             fragment at which StructTag stops:
+                                                             the tag is cut off from there (the
+                                                             quoted-form retry and the "cannot
+                                                             locate" error of the current code
+                                                             concern values with escapes, which
+                                                             this pair-level model does not have)
    sfdFromLine: strings.Split(options, ","),               split_comma, parse_options
        1..3 parts, strconv.Atoi of the second,
        third = accessor
@@ -89,10 +95,16 @@ Fixpoint lookup_key (k : string) (tl : struct_tag) : option string :=
   end.
 Fixpoint has_suffix (suf s : string) : bool :=
   String.eqb suf s || match s with EmptyString => false | String _ r => has_suffix suf r end.
+(* strings.Replace(remaining, `gsort:"`+v+`"`, "", 1) on the tag TEXT: the first pair whose text
+   `key:"value"` ENDS with that pattern is hit.  When its key is exactly gsort the pair is gone.
+   When the key is longer (`xgsort`) only the tail of the pair is cut away and the rest of the
+   key (`x`) stays behind, followed by a blank: reflect.StructTag stops scanning at such a
+   fragment, so every pair from there on has become invisible to Lookup. *)
 Fixpoint remove_first_text (v : string) (tl : struct_tag) : struct_tag :=
   match tl with
   | [] => []
-  | (k', v') :: r => if has_suffix "gsort" k' && String.eqb v' v then r
+  | (k', v') :: r => if has_suffix "gsort" k' && String.eqb v' v
+                     then (if String.eqb k' "gsort" then r else [])
                      else (k', v') :: remove_first_text v r
   end.
 Fixpoint tag_loop (fuel : nat) (tl : struct_tag) : list string :=
